@@ -40,11 +40,30 @@ def case_fails(hexe, dexe, workdir, want):
     return f
 
 
+def forced_classes(tier):
+    """model classes every run must contain (generic classes, not inputs): deep blank chains at orders 4..6
+    (all basis orders x chain lengths) and high fan-out models for each -a value"""
+    f = [{"kind": "corpus", "chains": True, "order": 6}, {"kind": "pruned", "chains": True, "order": 6},
+         {"kind": "corpus", "chains": True, "order": 5}, {"kind": "pruned", "chains": True, "order": 5},
+         {"kind": "random", "chains": True, "order": 6}, {"kind": "corpus", "chains": True, "order": 4}]
+    abits = [1, 2, 3, 4, 6, 9, 22, 25, 64, 255]
+    f += [{"kind": "fanout", "abits": a} for a in (abits if tier != "quick" else abits[1:10:2])]
+    return f
+
+
 def lm_stream(ctx, hexe, dexe, n_cases, size, want=("oracle", "struct", "spec"), tag="lm-query"):
     work = fresh_scratch("c01_%s_%d" % (ctx.pid, os.getpid()))
     found = False
+    forces = forced_classes(ctx.tier)
     for ci in range(n_cases):
-        case = lmgen.gen_case(ctx.rng, size=size)
+        force = forces[ci] if ci < len(forces) else ({"kind": "fanout"} if ctx.rng.random() < 0.03 else None)
+        case = lmgen.gen_case(ctx.rng, size=size, force=force)
+        for (b, L) in getattr(case, "chains", []):
+            ctx.hist("lm.blankchain.order%d" % case.meta["order"], "basis=%d,len=%d" % (b, L))
+        if case.meta["kind"] == "fanout":
+            ctx.hist("lm.fanout.abits", case.abits)
+            ctx.hist("lm.fanout.buckets_spanned_min", case.meta["buckets_spanned_min"])
+            ctx.cov["fanout_max_buckets_spanned"] = max(ctx.cov.get("fanout_max_buckets_spanned", 0), case.meta["buckets_spanned_min"])
         path = lmq.write_case(case, work, "c%d" % ci)
         ops = lmq.make_ops(path, case)
         (rc1, o1, e1), (rc2, o2, e2) = lmq.run_both(hexe, dexe, ops)
